@@ -91,8 +91,11 @@ def setP (pl : Pid → PState) (p : Pid) (x : PState) : Pid → PState :=
   fun q => if q = p then x else pl q
 
 /-- the relay loop of `CreateContainer`: every plugin in `r.plugins` receives the request -/
+def deliver1 (x : PState) (c : Cid) : PState :=
+  if x.phase = .active then { x with got := c :: x.got } else x
+
 def deliver (pl : Pid → PState) (c : Cid) : Pid → PState :=
-  fun q => if (pl q).phase = .active then { pl q with got := c :: (pl q).got } else pl q
+  fun q => deliver1 (pl q) c
 
 def step? (s : State) : Ev → Option State
   | .block b =>
